@@ -1253,7 +1253,10 @@ class RTCSctpTransport(AsyncIOEventEmitter):
         """
         Handle a SACK chunk.
         """
-        if uint32_gt(self._last_sacked_tsn, chunk.cumulative_tsn):
+        if not uint32_gte(
+            chunk.cumulative_tsn, self._last_sacked_tsn
+        ) or uint32_gt(chunk.cumulative_tsn, tsn_minus_one(self._local_tsn)):
+            # stale, or acknowledging data which was never sent
             return
 
         received_time = time.time()
